@@ -25,7 +25,11 @@ RULE = (
     "plus direct monotonicity/substring checks on the real outputs; extensions: min_length = 0 is in scope "
     "(spec `DigestSpec0`), general fixed-width patterns (width 1..3, look-ahead of either polarity, negated "
     "classes; named and random ones) with their own exhaustive sweep, call forms keyword / positional / "
-    "omitted-defaults / digest(sequence), sequences with lower-case and non-standard residue letters"
+    "omitted-defaults / digest(sequence), sequences with lower-case and non-standard residue letters; second "
+    "extension: enzyme rules written with look-around only (empty matches; named and random ones, also matching at "
+    "position 0 / at the end, the empty pattern) against `digestz`/`digestspecz` with their own exhaustive sweep, "
+    "proteins of 400..6000 residues (15000 thorough) against the model and an independent Python restatement of "
+    "the specification, every 16th call repeated after mutating the first result, length limits beyond 2^31 / 2^63"
 )
 
 # regex -> (cleavage residues, blocking next residues) : the class of enzymes the model covers
@@ -61,6 +65,73 @@ PATTERNS = {
     r"[^KP]": dict(classes=[[True, "KP"]], la=None),
     r"M(?!.)": dict(classes=[[False, "M"]], la=[False, True, ""]),            # only at the very end
 }
+
+
+# zero-width rules (Model/DigestZero.lean): regex -> structure
+#   lb / la: None or [positive, negated, letters]   ((?<=..)/(?<!..) and (?=..)/(?!..))
+ZERO_RULES = {
+    r"(?<=[KR])(?!P)": dict(lb=[True, False, "KR"], la=[False, False, "P"]),   # trypsin/P
+    r"(?<=K)": dict(lb=[True, False, "K"], la=None),                            # Lys-C
+    r"(?=D)": dict(lb=None, la=[True, False, "D"]),                             # Asp-N: may match at position 0
+    r"(?=K)": dict(lb=None, la=[True, False, "K"]),                             # Lys-N
+    r"(?=[DE])": dict(lb=None, la=[True, False, "DE"]),
+    r"(?!P)": dict(lb=None, la=[False, False, "P"]),                            # everywhere but before P: matches at 0 and at the end
+    r"(?<!P)(?=[DM])": dict(lb=[False, False, "P"], la=[True, False, "DM"]),    # matches in front of an N-terminal M
+    r"(?<=[^P])(?=[KM])": dict(lb=[True, True, "P"], la=[True, False, "KM"]),
+    r"(?<![KR])(?!A)": dict(lb=[False, False, "KR"], la=[False, False, "A"]),
+    r"(?<=K)(?=.)": dict(lb=[True, False, "K"], la=[True, True, ""]),           # never at the end
+    r"": dict(lb=None, la=None),                                                # the empty pattern: every position
+}
+
+
+def zero_regex(z, rng=None):
+    r = ""
+    if z["lb"] is not None:
+        pos, n, l = z["lb"]
+        r += ("(?<=" if pos else "(?<!") + class_regex(n, l, rng) + ")"
+    if z["la"] is not None:
+        pos, n, l = z["la"]
+        r += ("(?=" if pos else "(?!") + class_regex(n, l, rng) + ")"
+    return r
+
+
+def zero_alphabet(z):
+    letters = ""
+    for a in (z["lb"], z["la"]):
+        if a is not None:
+            letters += a[2][:2]
+    return list(dict.fromkeys(letters + "M" + "A"))
+
+
+def gen_zero(rng):
+    """a random zero-width rule over a small alphabet (M included: rules matching in front of an N-terminal M)"""
+    alpha = rng.sample("KRPDMA", 3)
+
+    def assertion():
+        r = rng.random()
+        if r < 0.3:
+            return None
+        pos = rng.random() < 0.5
+        r = rng.random()
+        if r < 0.6:
+            return [pos, False, "".join(rng.sample(alpha, rng.choice([1, 1, 2])))]
+        if r < 0.9:
+            return [pos, True, "".join(rng.sample(alpha, 1))]
+        return [pos, True, ""]
+
+    return dict(lb=assertion(), la=assertion())
+
+
+def py_zero_ends(z, seq, fold=lambda l: l):
+    """positions 0..len(seq) where both assertions of a zero-width rule hold, written out directly (no `re`)"""
+    def ok(a, ch):
+        if a is None:
+            return True
+        pos, n, l = a
+        return ((ch is not None) and ((ch in fold(l)) != n)) == pos
+
+    return [p for p in range(len(seq) + 1)
+            if ok(z["lb"], seq[p - 1] if p > 0 else None) and ok(z["la"], seq[p] if p < len(seq) else None)]
 
 
 def class_regex(neg, letters, rng=None):
@@ -132,6 +203,8 @@ def py_match_ends(pat, seq):
 
 
 def small_alphabet(enz):
+    if enz in ZERO_RULES:
+        return zero_alphabet(ZERO_RULES[enz])
     if enz not in ENZYMES:
         return pattern_alphabet(PATTERNS[enz])
     cls, nn = ENZYMES[enz]
@@ -150,6 +223,8 @@ def zero_width_form(c, rng):
     def has(neg, letters, ch):
         return (ch in letters) != neg
 
+    if is_zero(c):
+        return None
     if is_pattern(c):
         pat = pat_of(c)
         if pat is None or len(pat["classes"]) != 1:
@@ -171,6 +246,12 @@ def the_regex(c):
         key = ("icase", enz)
         if key not in _COMPILED:
             _COMPILED[key] = re.compile(enz, re.IGNORECASE)
+        return _COMPILED[key]
+    if c.get("verbose"):
+        # the same rule laid out with re.VERBOSE (blanks and a comment that only this flag makes insignificant)
+        key = ("verbose", enz)
+        if key not in _COMPILED:
+            _COMPILED[key] = re.compile("  " + enz + "   # enzyme rule\n", re.VERBOSE)
         return _COMPILED[key]
     if c.get("compiled"):
         if enz not in _COMPILED:
@@ -209,8 +290,19 @@ def pat_of(c):
     return c["pat"] if "pat" in c else PATTERNS.get(c["enz"])
 
 
+def zero_of(c):
+    return c["zero"] if "zero" in c else ZERO_RULES.get(c["enz"])
+
+
+def is_zero(c):
+    return "zero" in c or ("pat" not in c and c["enz"] in ZERO_RULES)
+
+
 def is_pattern(c):
-    return "pat" in c or c["enz"] not in ENZYMES
+    return not is_zero(c) and ("pat" in c or c["enz"] not in ENZYMES)
+
+
+STRICT_NTERM_CLIP = bool(os.environ.get("C17_STRICT_NTERM_CLIP"))
 
 
 def cls_atom(neg, letters):
@@ -225,6 +317,17 @@ def fold_case(letters, c):
 
 
 def wire(op, c):
+    if is_zero(c):
+        z = zero_of(c)
+        lb = z["lb"] if z["lb"] is not None else [False, False, ""]
+        la = z["la"] if z["la"] is not None else [False, False, ""]
+        # `digestspecz` = what the code returns (DigestSpecZ, proved = digestZ); `digestspeczi` = the property text
+        # read literally (DigestSpecZI); they differ only when the rule matches at position 0 and clipping is on
+        zop = {"digest": "digestz", "digestspec": "digestspeczi" if STRICT_NTERM_CLIP else "digestspecz",
+               "digestspeci": "digestspeczi"}[op]
+        return req(zop, bool(lb[0]), cls_atom(lb[1], fold_case(lb[2], c)), bool(la[0]),
+                   cls_atom(la[1], fold_case(la[2], c)),
+                   common.Atom("q" + c["seq"]), c["mc"], c["lo"], c["hi"], c["clip"], c["semi"])
     if is_pattern(c):
         pat = pat_of(c)
         la = pat["la"] if pat["la"] is not None else [False, False, ""]
@@ -245,8 +348,14 @@ def parse_peps(line):
     return {t[1:] for t in line[1:-1].split()}
 
 
+def zero_ends(c):
+    return py_zero_ends(zero_of(c), c["seq"], lambda l: fold_case(l, c))
+
+
 def internal_sites(c):
     s = c["seq"]
+    if is_zero(c):
+        return sum(1 for e in zero_ends(c) if 0 < e < len(s))
     if is_pattern(c):
         return sum(1 for e in py_match_ends(pat_of(c), s) if e < len(s))
     cls, nn = ENZYMES[c["enz"]]
@@ -259,9 +368,53 @@ def internal_sites(c):
 
 def last_residue_cleaves(c):
     s = c["seq"]
+    if is_zero(c):
+        return bool(s) and len(s) in zero_ends(c)
     if is_pattern(c):
         return bool(s) and len(s) in py_match_ends(pat_of(c), s)
     return bool(s) and s[-1] in ENZYMES[c["enz"]][0]
+
+
+def py_spec(c, strict=False):
+    """the specification restated directly in Python (no `re`, no Lean): the set of peptides the enzyme rules allow.
+    Cleavage positions = 0, len(seq) and every match end; a peptide seq[a:b] between two of them with at most `mc`
+    positions strictly between and lo <= b-a <= hi; with clip the form seq[1:b] of such a peptide at a = 0 starting
+    with M (still >= lo; when position 0 is itself a match end - zero-width rules only - the code lists it twice and
+    then needs one missed cleavage in reserve: DigestSpecZ); with semi every proper prefix / suffix >= lo; the empty
+    peptide when lo = 0 and an end of the sequence is listed twice.  Independent oracle for the long proteins, and
+    cross-checked against the Lean spec enumerations on the short ones."""
+    s = c["seq"]
+    n = len(s)
+    if is_zero(c):
+        ends = zero_ends(c)
+    elif is_pattern(c):
+        if c.get("icase"):
+            raise ValueError("py_spec: no case folding for general patterns")
+        ends = py_match_ends(pat_of(c), s)
+    else:
+        cls, nn = (fold_case(x, c) for x in ENZYMES[c["enz"]])
+        ends = [i + 1 for i, ch in enumerate(s) if ch in cls and (i + 1 == n or s[i + 1] not in nn)]
+    start_dup = 0 in ends and not (strict or STRICT_NTERM_CLIP)   # strict: the property text (DigestSpecZI)
+    empty_ok = 0 in ends or n == 0 or n in ends
+    pos = sorted(set([0, n] + ends))
+    mc, lo, hi = c["mc"], c["lo"], c["hi"]
+    out = set()
+    for i, a in enumerate(pos):
+        for j in range(i + 1, min(len(pos), i + mc + 2)):
+            b = pos[j]
+            if not (lo <= b - a <= hi):
+                continue
+            out.add(s[a:b])
+            if c["clip"] and a == 0 and s[0] == "M" and b - 1 >= lo and (not start_dup or (j - i - 1) + 1 <= mc):
+                out.add(s[1:b])
+            if c["semi"]:
+                for k in range(1, b - a):
+                    if b - a - k >= lo:
+                        out.add(s[a + k:b])
+                        out.add(s[a:b - k])
+    if lo == 0 and empty_ok:
+        out.add("")
+    return out
 
 
 def first_clause(c, impl, spec):
@@ -281,19 +434,38 @@ def info(chk, key, item):
     d["count"] += 1
 
 
-def eval_cases(chk, cases, detail=True):
-    """run implementation, model and spec enumeration on `cases`; classify disagreements"""
-    lines = []
+def eval_cases(chk, cases, detail=True, oracle="lean"):
+    """run implementation, model and specification on `cases`; classify disagreements.
+    oracle = "lean": the spec is the Lean enumeration (driver op digestspec*), and for short sequences the Python
+    restatement `py_spec` is cross-checked against it; oracle = "py": the spec is `py_spec` alone (long proteins, for
+    which the cubic Lean enumeration is too slow) - the Lean model is still compared"""
+    lines, at = [], []
     for c in cases:
+        i0 = len(lines)
         lines.append(wire("digest", c))
-        lines.append(wire("digestspec", c))
+        if oracle == "lean":
+            lines.append(wire("digestspec", c))
+        tally_i = None
+        if is_zero(c) and c["clip"] and not STRICT_NTERM_CLIP and oracle == "lean":
+            tally_i = len(lines)
+            lines.append(wire("digestspeci", c))
+        at.append((i0, tally_i))
     resp = common.driver_batch(lines)
     results = []
     for k, c in enumerate(cases):
-        model = parse_peps(resp[2 * k])
-        spec = parse_peps(resp[2 * k + 1])
+        i0, tally_i = at[k]
+        model = parse_peps(resp[i0])
+        spec = parse_peps(resp[i0 + 1]) if oracle == "lean" else py_spec(c)
+        again = None
         try:
             out = impl_digest(c)
+            if c.get("again"):
+                # object re-use: spoil the first result, call again with the same arguments
+                again = set(out)
+                if hasattr(out, "add"):
+                    out.add("\x00spoilt")
+                    out.discard(min(again, default=None))
+                out = impl_digest(c)
         except Exception as e:  # digest promises a result for every str sequence and int bounds
             chk.spec_violation("exception:" + type(e).__name__,
                                dict(case=c, error=repr(e), clause="mokapot.digest raised"))
@@ -303,25 +475,34 @@ def eval_cases(chk, cases, detail=True):
         results.append(impl)
         ns = internal_sites(c)
         key = (c["enz"], c["seq"], c["mc"], c["lo"], c["hi"], c["clip"], c["semi"]) if (ns and impl) else None
-        chk.case(None, key, sample=dict(case=c, impl=sorted(impl), model=sorted(model)) if (ns and impl) else None)
+        chk.case(None, key, sample=dict(case=c, impl=sorted(impl), model=sorted(model))
+                 if (ns and impl and len(c["seq"]) <= 200) else None)
         if detail:
             n = len(c["seq"])
             pat = is_pattern(c)
-            chk.count("len", n if n <= 10 else ("11-30" if n <= 30 else ("31-100" if n <= 100 else ">100")))
-            chk.count("enzyme", c["enz"] if (not pat or c["enz"] in PATTERNS) else "(random pattern)")
-            chk.count("enzyme_written_as", "look-around only (empty matches)" if c.get("zw") else "consuming")
+            zero = is_zero(c)
+            chk.count("len", n if n <= 10 else ("11-30" if n <= 30 else ("31-100" if n <= 100 else (
+                "101-399" if n < 400 else ("400-1999" if n < 2000 else ">=2000")))))
+            chk.count("enzyme", c["enz"] if (c["enz"] in ENZYMES or c["enz"] in PATTERNS or c["enz"] in ZERO_RULES)
+                      else ("(random zero-width rule)" if zero else "(random pattern)"))
+            chk.count("enzyme_written_as", "look-around only (empty matches)" if (c.get("zw") or zero) else "consuming")
             chk.count("compiled_regex", bool(c.get("compiled")))
             chk.count("compiled_with_IGNORECASE", bool(c.get("icase")))
+            chk.count("compiled_with_VERBOSE", bool(c.get("verbose")))
             chk.count("mc", c["mc"])
             chk.count("clip", c["clip"])
             chk.count("semi", c["semi"])
-            chk.count("internal_sites", ns if ns <= 5 else ">5")
-            chk.count("n_peptides", len(impl) if len(impl) <= 3 else ("4-10" if len(impl) <= 10 else ">10"))
+            chk.count("internal_sites", ns if ns <= 5 else (">5" if ns <= 50 else ">50"))
+            chk.count("n_peptides", len(impl) if len(impl) <= 3 else ("4-10" if len(impl) <= 10 else (
+                ">10" if len(impl) <= 1000 else ">1000")))
             chk.count("last_residue_cleaves", last_residue_cleaves(c))
             chk.count("starts_with_M", c["seq"].startswith("M"))
             chk.count("min_length_0", c["lo"] < 1)
+            chk.count("max_length", "<= 2^31" if c["hi"] < 2 ** 31 else ">= 2^31")
             chk.count("empty_peptide_returned", "" in impl)
             chk.count("call_form", c.get("call", "kw"))
+            chk.count("called_twice_first_result_spoilt", bool(c.get("again")))
+            chk.count("spec_oracle", oracle)
             if c.get("call") == "omit":
                 for k_ in c["omit"]:
                     chk.count("omitted_argument", k_)
@@ -331,16 +512,52 @@ def eval_cases(chk, cases, detail=True):
                 chk.count("pattern_width", len(p["classes"]))
                 chk.count("pattern_lookahead", "none" if p["la"] is None else ("positive" if p["la"][0] else "negative"))
                 chk.count("pattern_negated_class", any(n_ for n_, _ in p["classes"]))
+            if zero:
+                z = zero_of(c)
+                ze = zero_ends(c)
+                chk.count("zero_lookbehind", "none" if z["lb"] is None else ("positive" if z["lb"][0] else "negative"))
+                chk.count("zero_lookahead", "none" if z["la"] is None else ("positive" if z["la"][0] else "negative"))
+                chk.count("zero_match_at_position_0", 0 in ze)
+                chk.count("zero_match_at_position_0_clip_M", 0 in ze and c["clip"] and c["seq"].startswith("M"))
+                chk.count("zero_match_at_end", len(c["seq"]) in ze)
         if not all(isinstance(p, str) for p in out):
             chk.spec_violation("non-str-peptide", dict(case=c, impl=repr(out), clause="result is not a set of str"))
             continue
+        if again is not None and again != impl:
+            chk.spec_violation("repeat-call", dict(
+                case=c, impl=sorted(impl), expected=sorted(again),
+                clause="two calls with the same arguments return different sets (the first result was modified by the "
+                       f"caller in between): {sorted(impl ^ again)[:5]}"))
+            continue
+        if tally_i is None and oracle == "py" and is_zero(c) and c["clip"] and not STRICT_NTERM_CLIP:
+            if impl != py_spec(c, strict=True):
+                info(chk, "clipped_form_skipped_after_empty_match_at_position_0",
+                     dict(case=dict(c, seq=c["seq"][:80] + "..."), missing=sorted(py_spec(c, strict=True) - impl)[:5]))
+        if tally_i is not None and impl != parse_peps(resp[tally_i]):
+            # informational: the code's result differs from the property text read literally (clipped form of an
+            # N-terminal peptide skipped because the rule matches at position 0) - see GAPS-C17.md, second pass
+            info(chk, "clipped_form_skipped_after_empty_match_at_position_0",
+                 dict(case=c, impl=sorted(impl), property_text=sorted(parse_peps(resp[tally_i]))))
+        if oracle == "lean" and detail and len(c["seq"]) <= 60 and not (is_pattern(c) and c.get("icase")):
+            chk.count("py_spec_cross_checked", True)
+            if py_spec(c) != spec:
+                # the Python restatement used for the long proteins must agree with the proved enumerations
+                info(chk, "harness_py_spec_disagreements", dict(case=c, py=sorted(py_spec(c)), lean=sorted(spec)))
         if impl != spec:
-            sig = "digest-vs-spec" + ("-pattern" if is_pattern(c) else "") + ("-minlen0" if c["lo"] < 1 else "")
+            sig = ("digest-vs-spec" + ("-zero" if is_zero(c) else ("-pattern" if is_pattern(c) else ""))
+                   + ("-minlen0" if c["lo"] < 1 else ""))
+            clause = first_clause(c, impl, spec) + (" (second of two calls)" if again is not None else "")
+            if is_zero(c) and c["clip"] and not STRICT_NTERM_CLIP and impl == (
+                    parse_peps(resp[tally_i]) if tally_i is not None else py_spec(c, strict=True)):
+                clause += (" - the result equals the property text read literally (DigestSpecZI) but not the behaviour "
+                           "modelled from the code (DigestSpecZ: with site 0 listed twice the clip test `not start_idx` "
+                           "skips the N-terminal peptide reached from start_idx = 1); if `_cleave` was repaired on "
+                           "purpose, Model/DigestZero.lean has to follow (GAPS-C17.md, second pass)")
             chk.spec_violation(
-                sig, dict(case=c, impl=sorted(impl), expected=sorted(spec), clause=first_clause(c, impl, spec)))
+                sig, dict(case=c, impl=sorted(impl)[:200], expected=sorted(spec)[:200], clause=clause))
         elif impl != model:
-            chk.corr_break("digestp" if is_pattern(c) else "digest",
-                           dict(case=c, impl=sorted(impl), model=sorted(model)))
+            chk.corr_break("digestz" if is_zero(c) else ("digestp" if is_pattern(c) else "digest"),
+                           dict(case=c, impl=sorted(impl)[:200], model=sorted(model)[:200]))
     return results
 
 
@@ -412,6 +629,25 @@ def sites_cases(chk, rng, n):
     from mokapot.parsers import fasta
 
     cases = []
+    zcases = []
+    for _ in range(n // 4):
+        z = ZERO_RULES[rng.choice(list(ZERO_RULES))] if rng.random() < 0.5 else gen_zero(rng)
+        alpha = zero_alphabet(z)
+        zcases.append((zero_regex(z, rng), z, "".join(rng.choice(alpha) for _ in range(rng.randint(0, 12)))))
+    zlines = []
+    for enz, z, seq in zcases:
+        lb = z["lb"] if z["lb"] is not None else [False, False, ""]
+        la = z["la"] if z["la"] is not None else [False, False, ""]
+        zlines.append(req("sitesz", bool(lb[0]), cls_atom(lb[1], lb[2]), bool(la[0]), cls_atom(la[1], la[2]),
+                          common.Atom("q" + seq)))
+    for (enz, z, seq), r in zip(zcases, common.driver_batch(zlines)):
+        model = [int(t) for t in r.strip()[1:-1].split()]
+        impl = list(fasta._cleavage_sites(seq, enz))
+        chk.count("sites_cases", "zero-width")
+        if impl != model:
+            info(chk, "private_helper_sites_disagreements", dict(enz=enz, seq=seq, impl=impl, model=model))
+        if [0] + py_zero_ends(z, seq) + [len(seq)] != model:
+            info(chk, "harness_tally_matcher_disagreements", dict(enz=enz, seq=seq, model=model))
     for _ in range(n):
         if rng.random() < 0.5:
             enz = rng.choice(list(ENZYMES))
@@ -449,8 +685,12 @@ def sites_cases(chk, rng, n):
 # ----------------------------------------------------------------------------
 # generators
 # ----------------------------------------------------------------------------
-def gen_seq(rng, enz, nmax, pat=None):
-    if pat is None and enz in ENZYMES:
+def gen_seq(rng, enz, nmax, pat=None, zero=None):
+    if zero is not None:
+        alpha = zero_alphabet(zero)
+        cls = "".join(a[2] for a in (zero["lb"], zero["la"]) if a is not None and not a[1]) or "K"
+        nn = "".join(a[2] for a in (zero["lb"], zero["la"]) if a is not None and a[1])
+    elif pat is None and enz in ENZYMES:
         cls, nn = ENZYMES[enz]
         alpha = small_alphabet(enz)
     else:
@@ -484,10 +724,22 @@ def gen_seq(rng, enz, nmax, pat=None):
     return s
 
 
-def gen_case(rng, nmax=160):
+def gen_case(rng, nmax=160, zero_share=0.12):
+    """zero_share: fraction of cases whose enzyme is a zero-width rule (Model/DigestZero.lean); the remaining cases are
+    distributed as before (class enzymes 62 %, named patterns 22 %, random patterns 16 %)"""
+    zero = None
+    if rng.random() < zero_share:
+        if rng.random() < 0.6:
+            enz = rng.choice(list(ZERO_RULES))
+            zero = ZERO_RULES[enz]
+        else:
+            zero = gen_zero(rng)
+            enz = zero_regex(zero, rng)
     r0 = rng.random()
     pat = None
-    if r0 < 0.62:
+    if zero is not None:
+        pass
+    elif r0 < 0.62:
         enz = rng.choice(list(ENZYMES))
     elif r0 < 0.84:
         enz = rng.choice(list(PATTERNS))
@@ -497,9 +749,11 @@ def gen_case(rng, nmax=160):
         enz = pattern_regex(pat, rng)
     # patterns with negated / any-residue classes cut almost everywhere: the spec enumeration is cubic in the
     # number of sites, so their sequences are capped (the class enzymes keep the long ones)
-    seq = gen_seq(rng, enz, nmax if pat is None else min(nmax, 48), pat)
+    seq = gen_seq(rng, enz, nmax if (pat is None and zero is None) else min(nmax, 48), pat, zero)
     n = len(seq)
     mc = rng.choice([0, 0, 1, 1, 2, 2, 3, 3, 4, 6])
+    if rng.random() < 0.01:
+        mc = rng.choice([25, 50])   # far more than there are sites
     r = rng.random()
     if r < 0.1 and n >= 8:
         lo, hi = 6, 50  # defaults
@@ -511,10 +765,20 @@ def gen_case(rng, nmax=160):
         lo = min(lo, max(1, n)) if rng.random() < 0.9 else lo
         hi = rng.choice([lo, lo + 1, lo + 2, lo + 4, lo + 10, max(lo, n), n + 3, 50] + ([lo - 1] if rng.random() < 0.2 else []))
         hi = max(hi, 0)
+    if rng.random() < 0.02:
+        hi = rng.choice([2 ** 31 - 1, 2 ** 31, 2 ** 63 - 1, 2 ** 63, 10 ** 30])   # "no upper limit"
     c = dict(enz=enz, compiled=rng.random() < 0.3, seq=seq, mc=mc, lo=lo, hi=hi,
              clip=rng.random() < 0.5, semi=rng.random() < 0.5)
     if pat is not None and enz not in PATTERNS:
         c["pat"] = pat
+    if zero is not None and ZERO_RULES.get(enz) != zero:
+        c["zero"] = zero
+    if zero is not None and seq and rng.random() < 0.3:
+        # a rule that matches in front of the first residue, a protein starting with M, clipping on
+        c["seq"] = "M" + seq[1:]
+        c["clip"] = True
+    if rng.random() < 1 / 16:
+        c["again"] = True   # call twice, the first result spoilt in between
     if rng.random() < 0.08:
         # soft-masked (lower-case) residues and an enzyme compiled with re.IGNORECASE
         c["icase"] = True
@@ -524,10 +788,13 @@ def gen_case(rng, nmax=160):
         zw = zero_width_form(c, rng)
         if zw is not None:
             c["zw"] = zw
+    elif rng.random() < 0.04:
+        c["verbose"] = True
+        c["compiled"] = True
     r = rng.random()
     if r < 0.12:
         c["call"] = "pos"
-    elif r < 0.30 and pat is None:
+    elif r < 0.30 and pat is None and zero is None:
         # leave a random non-empty subset of the optional arguments out: they then take their documented defaults
         omit = [k for k in PARAM_ORDER if rng.random() < 0.4] or [rng.choice(PARAM_ORDER)]
         for k in omit:
@@ -536,9 +803,65 @@ def gen_case(rng, nmax=160):
             c["compiled"] = False
             c.pop("icase", None)      # the default enzyme is a plain string pattern
             c.pop("zw", None)
+            c.pop("verbose", None)
         c["call"] = "omit"
         c["omit"] = omit
     return c
+
+
+def gen_long_case(rng, nmin, nmax):
+    """a protein of nmin..nmax residues (real proteomes: median ~ 400, titin 35 000): class enzymes, a few general
+    patterns and zero-width rules; realistic length limits so that the output stays small"""
+    r = rng.random()
+    pat = zero = None
+    if r < 0.6:
+        enz = rng.choice(list(ENZYMES))
+    elif r < 0.8:
+        enz = rng.choice([r"\w(?=D)", r"[KR](?=[^P])", "KK", "[KR][^P]", "[KR]K(?=[^P])"])
+        pat = PATTERNS[enz]
+    else:
+        enz = rng.choice([r"(?<=[KR])(?!P)", r"(?<=K)", r"(?=D)", r"(?=K)", r"(?<!P)(?=[DM])"])
+        zero = ZERO_RULES[enz]
+    n = int(round(nmin * (nmax / nmin) ** rng.random()))   # log-uniform
+    if pat is None and zero is None:
+        cls, nn = ENZYMES[enz]
+    elif pat is not None:
+        cls = "".join(l for n_, l in pat["classes"] if not n_) or "K"
+        nn = pat["la"][2] if pat["la"] is not None else ""
+    else:
+        cls = "".join(a[2] for a in (zero["lb"], zero["la"]) if a is not None)
+        nn = ""
+    dense = rng.random() < 0.5
+    w = [((8 if dense else 2) if a in cls else (3 if a in nn else (2 if a == "M" else 1))) for a in AA20]
+    seq = "".join(rng.choices(AA20, weights=w, k=n))
+    if rng.random() < 0.5:
+        seq = "M" + seq[1:]
+    if rng.random() < 0.3:
+        seq = seq[:-1] + rng.choice(cls)
+    if rng.random() < 0.3:
+        # a stretch without any cleavage site, longer than max_length
+        i = rng.randrange(n)
+        seq = (seq[:i] + "".join(rng.choices("AGLSTV", k=rng.randint(60, 300))) + seq[i:])[:n]
+    lo, hi = rng.choice([(6, 50), (6, 50), (7, 30), (1, 12), (0, 8), (5, 60), (8, 8), (20, 45)])
+    c = dict(enz=enz, compiled=rng.random() < 0.5, seq=seq, mc=rng.choice([0, 1, 2, 2, 3, 5]), lo=lo, hi=hi,
+             clip=rng.random() < 0.5, semi=rng.random() < 0.35)
+    if c["semi"] and n > 1200:
+        # `_cleave` copies the whole result set for every semi form (peptides.union): keep that output small
+        c["mc"] = min(c["mc"], 1)
+        c["lo"], c["hi"] = rng.choice([(8, 10), (12, 14), (0, 3), (25, 28)])
+    if rng.random() < 0.2:
+        c["call"] = "pos"
+    if rng.random() < 0.15:
+        c["again"] = True
+    return c
+
+
+def long_cases(chk, rng, n, nmin, nmax):
+    """size-dependent behaviour: proteins far longer than the exhaustive / random families.  Oracle: `py_spec` (the
+    Lean enumeration is cubic); the Lean model `digest`/`digestp`/`digestz` is compared as well"""
+    cases = [gen_long_case(rng, nmin, nmax) for _ in range(n)]
+    for i in range(0, len(cases), 8):
+        eval_cases(chk, cases[i:i + 8], oracle="py")
 
 
 def grid_full(enz, seq):
@@ -668,8 +991,23 @@ def minimise(chk):
     if "case" not in info or not sig.startswith("digest-vs-spec"):
         return
     c0 = dict(info["case"])
+    c0.pop("again", None)
+    long_budget = [600]
+
+    def oracle_of(c):
+        return "py" if len(c["seq"]) > 200 else "lean"
 
     def fails_case(c):
+        if oracle_of(c) == "py":
+            # long protein: no driver round trip, bounded effort (a size-dependent failure cannot shrink below its
+            # threshold, and the one-by-one phase of the shrinker would take thousands of evaluations)
+            if long_budget[0] <= 0:
+                return False
+            long_budget[0] -= 1
+            try:
+                return set(impl_digest(c)) != py_spec(c)
+            except Exception:
+                return False
         sub = common.Check(chk.prop, chk.tier, chk.seed)
         try:
             eval_cases(sub, [c], detail=False)
@@ -687,10 +1025,11 @@ def minimise(chk):
                 c = c2
                 break
     sub = common.Check(chk.prop, chk.tier, chk.seed)
-    eval_cases(sub, [c], detail=False)
+    eval_cases(sub, [c], detail=False, oracle=oracle_of(c))
     for s, i in sub.spec_violations:
         if s.startswith("digest-vs-spec"):
-            chk.spec_violations[0] = (s, dict(i, shrunk_from=c0))
+            chk.spec_violations[0] = (s, dict(i, shrunk_from=c0 if len(c0["seq"]) <= 400 else
+                                              dict(c0, seq=c0["seq"][:120] + f"... ({len(c0['seq'])} residues)")))
             break
 
 
@@ -705,8 +1044,12 @@ def search(chk):
     if not chk.spec_violations:
         exhaustive(chk, [("[KR](?!P)", tuple("KPMA"), range(0, 6), "full"), ("K", tuple("KMA"), range(0, 7), "full"),
                          ("KK", tuple("KMA"), range(0, 7), "full"), (r"\w(?=D)", tuple("DMA"), range(0, 6), "full"),
-                         ("[KR][^P]", tuple("KPMA"), range(0, 6), "full")],
+                         ("[KR][^P]", tuple("KPMA"), range(0, 6), "full"),
+                         (r"(?!P)", tuple("PMA"), range(0, 7), "full"), (r"(?<=K)", tuple("KMA"), range(0, 6), "full"),
+                         (r"(?=D)", tuple("DMA"), range(0, 6), "full"), (r"", tuple("MA"), range(0, 7), "full")],
                    workers=4)
+    if not chk.spec_violations:
+        long_cases(chk, rng, 150, 400, 20000)
     if not chk.spec_violations:
         default_call_cases(chk, rng, 3000)
     if not chk.spec_violations:
@@ -738,10 +1081,13 @@ def main(chk, args):
 
     lap("build")
     cases = [dict(c) for c in corpus_cases()]
-    cases += [gen_case(rng) for _ in range(12000 if quick else 120000)]
+    cases += [gen_case(rng, zero_share=0) for _ in range(12000 if quick else 120000)]
+    cases += [gen_case(rng, zero_share=1) for _ in range(1500 if quick else 15000)]
     for i in range(0, len(cases), 10000):
         eval_cases(chk, cases[i:i + 10000])
     lap("random")
+    long_cases(chk, rng, 40 if quick else 250, 400, 6000 if quick else 15000)
+    lap("long")
     default_call_cases(chk, rng, 400 if quick else 6000)
     lap("default")
     sites_cases(chk, rng, 500 if quick else 5000)
@@ -751,7 +1097,9 @@ def main(chk, args):
         exhaustive(chk, [("[KR](?!P)", tuple("KPMA"), range(0, 6), "full"),
                          ("[KR](?!K)", tuple("KRM"), range(0, 5), "full"),
                          ("KK", tuple("KMA"), range(0, 6), "full"),
-                         (r"\w(?=D)", tuple("DMA"), range(0, 5), "full")], workers=min(4, n_workers()))
+                         (r"\w(?=D)", tuple("DMA"), range(0, 5), "full"),
+                         (r"(?!P)", tuple("PMA"), range(0, 5), "full"),
+                         (r"(?<=K)(?=.)", tuple("KMA"), range(0, 5), "full")], workers=min(4, n_workers()))
     else:
         exhaustive(chk, [("[KR](?!P)", tuple("KPMA"), range(0, 7), "full"),
                          ("K", tuple("KMA"), range(0, 8), "full"),
@@ -764,16 +1112,40 @@ def main(chk, args):
                          (r"\w(?=D)", tuple("DMA"), range(0, 7), "full"),
                          ("K.K", tuple("KMA"), range(0, 7), "full"),
                          ("[KR]K(?=[^P])", tuple("KRPM"), range(0, 6), "full"),
-                         ("KK(?!K)", tuple("KM"), range(7, 12), "sampled")], workers=n_workers())
+                         ("KK(?!K)", tuple("KM"), range(7, 12), "sampled"),
+                         (r"(?!P)", tuple("PMA"), range(0, 8), "full"),
+                         (r"(?<=[KR])(?!P)", tuple("KPMA"), range(0, 7), "full"),
+                         (r"(?=D)", tuple("DMA"), range(0, 8), "full"),
+                         (r"(?<!P)(?=[DM])", tuple("PDMA"), range(0, 6), "full"),
+                         (r"", tuple("MA"), range(0, 9), "full"),
+                         (r"(?<=[^P])(?=[KM])", tuple("KPM"), range(7, 11), "sampled")], workers=n_workers())
     lap("exhaustive")
+    if "harness_py_spec_disagreements" in chk.extra:
+        # the Python restatement of the specification (oracle of the long proteins) disagrees with the proved Lean
+        # enumeration: the harness itself is wrong - a framework error, never a verdict
+        raise RuntimeError("py_spec disagrees with the Lean specification: "
+                           + json.dumps(chk.extra["harness_py_spec_disagreements"]["first"])[:1500])
     minimise(chk)
-    lc = common.leanchecker("C17") if chk.tier == "thorough" else None
+    lc = None
+    if chk.tier == "thorough":
+        parts = [common.leanchecker(m) for m in ("C17", "C17Ext", "C17Zero")]   # every property module of C17
+        lc = (all(ok for ok, _ in parts), "\n".join(log for _, log in parts)[-2000:])
     chk.assumptions += [
         "the enzyme is a fixed-width pattern: one or more residue classes ([..], [^..], ., X) followed by an "
         "optional one-residue look-ahead of either polarity on such a class; for these patterns re.finditer is "
         "assumed to report the leftmost non-overlapping matches, scanned left to right (model `matchEnds` for "
         "width 1 with a negative look-ahead, `matchEndsP` in general; characterised by C17_finditer_leftmost / "
-        "C17_finditer_unique); variable-width and zero-width regular expressions are outside the model",
+        "C17_finditer_unique); or a zero-width rule: a one-residue look-behind and/or look-ahead of either polarity "
+        "(or nothing: the empty pattern), for which re.finditer is assumed to report every position 0..len(sequence) "
+        "where the assertions hold (model `matchEndsZ`, C17_isEndZ_iff); variable-width patterns and alternations "
+        "are outside the model",
+        "zero-width rules: the verdict specification is DigestSpecZ = the code as it is (C17_digestZ_mem_iff_spec); "
+        "it equals the property text (DigestSpecZI) unless the rule matches at position 0 AND clipping is on "
+        "(C17_digestZ_spec_intended); real results that differ from the property text there are counted in "
+        "`clipped_form_skipped_after_empty_match_at_position_0` (C17_STRICT_NTERM_CLIP=1 makes them violations)",
+        "proteins of 400 residues and more are checked against the Lean model and the Python restatement `py_spec` "
+        "of the specification, which is itself compared with the proved Lean enumerations on every random case of "
+        "at most 60 residues (a disagreement there is a framework error)",
         "sequences are str over letters (upper case, occasionally lower case / non-standard); missed_cleavages, "
         "min_length, max_length are non-negative ints; min_length = 0 is covered by the all-bounds theorems "
         "(C17_digest_mem_iff_spec_all, C17_digestP_mem_iff_spec: the empty peptide is returned exactly when "
@@ -796,7 +1168,7 @@ def replay(chk, path):
     if info.get("signature", "").startswith("mono") or info.get("signature") == "substring":
         direct_clauses(chk, c, lambda x: set(impl_digest(x)))
     else:
-        eval_cases(chk, [c])
+        eval_cases(chk, [c], oracle="py" if len(c["seq"]) > 200 else "lean")
     for sig, i in chk.spec_violations:
         print("REPRODUCED", sig, json.dumps(i)[:1500])
     return 1 if chk.spec_violations else 0
